@@ -204,7 +204,7 @@ _DOCS = {}
 def plan(tier, seed):
     n = len(DF.documents(tier))
     chunk = 12
-    mod = 16 if tier == "quick" else 2
+    mod = 16 if tier == "quick" else 8
     first = [("docs", i, i + 1, tier) for i in range(n) if i % mod == seed % mod]
     return {"items": [("docs", lo, min(n, lo + chunk), tier) for lo in range(0, n, chunk)], "pristine_items": first, "meta": {"documents_again_one_per_pristine_process": len(first), "documents": n, "ref_shapes": [s[0] for s in DF.ref_shapes()], "title_shapes": [t[0] for t in DF.TITLE_SHAPES], "payloads": [p[0] for p in DF.PAYLOADS], "exhaustive": True}}
 
